@@ -261,7 +261,7 @@ type scenario struct {
 }
 
 var terminators = []string{"peer-close", "stream-error", "handler-error", "deadline", "transport-eof"}
-var forced = []string{"X1a", "X1b", "X2", "X3", "X4", "X5a", "X5b", "X5c", "X6", "X7", "X8", "X9", "X10", "X11", "X12", "X13", "X14", "X15", "X16", "X17", "X18"}
+var forced = []string{"X1a", "X1b", "X2", "X3", "X4", "X5a", "X5b", "X5c", "X6", "X7", "X8", "X9", "X10", "X11", "X12", "X13", "X14", "X15", "X16", "X17", "X18", "X19"}
 
 func run(c *core.Case) {
 	if c.Index < len(forced)*2 {
@@ -285,6 +285,9 @@ type world struct {
 	tee           *failingTee  // the session's XML console (nil: none); fails once armed
 	cancelledSend bool         // deadline terminator: a transmit with a context that is over follows SetCloseDeadline
 	noClose       bool         // deadline terminator: the application does not call Close
+	slowDeadline  bool         // deadline terminator: the deadline passes while a handler is running (X19)
+	slowEntered   chan struct{}
+	slowRelease   chan struct{}
 	errText       int          // length (runes) of the <text/> in the peer's stream error / the handler's stream.Error (0: none)
 	faulted       bool         // a write fault was injected on the closing tag
 	faultAt       int          // wire offset at which the transport was made to fail (forced X5*)
@@ -305,7 +308,7 @@ func newWorldOpt(c *core.Case, o sess.Opts, withLoop, holdServe bool) *world {
 		c.Inconclusive("cannot build session: %v", err)
 		return nil
 	}
-	w := &world{c: c, p: p, h: &hist{}, o: o, serveCh: make(chan error, 1)}
+	w := &world{c: c, p: p, h: &hist{}, o: o, serveCh: make(chan error, 1), slowEntered: make(chan struct{}), slowRelease: make(chan struct{})}
 	w.wireAtClose.Store(-1)
 	handler := xmpp.HandlerFunc(func(t xmlstream.TokenReadEncoder, start *xml.StartElement) error {
 		if start.Name.Local == "fail" {
@@ -325,6 +328,15 @@ func newWorldOpt(c *core.Case, o sess.Opts, withLoop, holdServe bool) *world {
 				if a.Name.Local == "wrote" && a.Value == "1" {
 					c.Count("failing_handlers_that_had_begun_to_write", 1)
 					t.EncodeToken(xml.StartElement{Name: xml.Name{Local: "iq"}, Attr: []xml.Attr{{Name: xml.Name{Local: "type"}, Value: "result"}, {Name: xml.Name{Local: "id"}, Value: "half-written"}}})
+				}
+				if a.Name.Local == "wrote" && a.Value == "2" {
+					// ... and a third have tried to write tokens the encoder refuses (a
+					// stray end tag, a start tag without a name), ignoring the errors as
+					// code that copies tokens blindly does: nothing reaches the wire,
+					// and the output stream is as free afterwards as before
+					c.Count("failing_handlers_whose_tokens_the_encoder_refused", 1)
+					t.EncodeToken(xml.EndElement{Name: xml.Name{Local: "iq"}})
+					t.EncodeToken(xml.StartElement{})
 				}
 			}
 			// the error has one of several shapes; none of them is the peer closing
@@ -349,6 +361,12 @@ func newWorldOpt(c *core.Case, o sess.Opts, withLoop, holdServe bool) *world {
 				}
 			}
 			return errors.New("verif: handler failure requested by the peer")
+		}
+		if start.Name.Local == "slow" {
+			// a handler that takes its time (X19): it is told when to go on
+			close(w.slowEntered)
+			<-w.slowRelease
+			return nil
 		}
 		if start.Name.Local != "iq" {
 			return nil
@@ -460,7 +478,7 @@ func (w *world) terminate(kind string) {
 			w.p.Send(fmt.Sprintf(`<fail xmlns='urn:verif:c10' n='%d'/>`, w.errText))
 		} else {
 			shapes := []string{"plain", "plain", "wrap-eof", "wrap-eof", "wrap-unexpected-eof", "wrap-closed-pipe", "wrap-output-closed", "wrap-input-closed", "wrap-canceled"}
-			w.p.Send(fmt.Sprintf(`<fail xmlns='urn:verif:c10' shape='%s' wrote='%d'/>`, shapes[w.c.Index%len(shapes)], (w.c.Index/len(shapes))%2))
+			w.p.Send(fmt.Sprintf(`<fail xmlns='urn:verif:c10' shape='%s' wrote='%d'/>`, shapes[w.c.Index%len(shapes)], (w.c.Index/len(shapes))%3))
 		}
 	case "transport-eof":
 		// the connection ends without the peer having closed its stream: the
@@ -468,6 +486,30 @@ func (w *world) terminate(kind string) {
 		// writes the closing tag at most once and leaves both directions closed
 		w.p.Peer.CloseWrite()
 	case "deadline":
+		if w.slowDeadline {
+			// The peer sends a stanza whose handler is still running when the close
+			// deadline passes; the application never calls Close.  Serve notices the
+			// deadline when the handler is back (no read is interrupted), returns an
+			// error, and has closed the output stream like on every other way out.
+			w.p.Send("<slow xmlns='urn:verif:c10'/>")
+			select {
+			case <-w.slowEntered:
+			case <-time.After(20 * time.Second):
+				w.c.Inconclusive("X19: the slow handler was not entered")
+				close(w.slowRelease)
+				return
+			}
+			e := w.h.begin("app", "setclosedeadline", "")
+			dl := time.Now().Add(10 * time.Millisecond)
+			err := w.p.S.SetCloseDeadline(dl)
+			w.h.end(e, fmt.Sprint(err), "")
+			for !time.Now().After(dl.Add(5 * time.Millisecond)) {
+				time.Sleep(time.Millisecond)
+			}
+			close(w.slowRelease)
+			w.c.Count("close_deadlines_that_passed_while_a_handler_was_running", 1)
+			return
+		}
 		// the peer stays silent; the application sets a close deadline and closes
 		e := w.h.begin("app", "setclosedeadline", "")
 		// a deadline that is still to come, or one that has passed already when it
@@ -1708,6 +1750,11 @@ func runForced(c *core.Case, id string, s2s bool) {
 		term = "deadline"
 		smp.Terminator = term
 		c.Count("close_deadline_then_cancelled_transmit_scenarios", 1)
+	case "X19": // the close deadline passes while a handler is running, and no Close at all
+		w.slowDeadline, w.noClose = true, true
+		term = "deadline"
+		smp.Terminator = term
+		c.Count("close_deadline_during_a_handler_scenarios", 1)
 	case "X12", "X13": // the application has closed its side; then the session ends with a stream error (X12: the peer's, X13: the handler's) whose encoding is larger than the output buffer
 		w.errText = 2300 + 400*(c.Index%3)
 		<-closeAsync("closer1")
@@ -1772,7 +1819,7 @@ func Prop() *core.Prop {
 		Run: run,
 		Require: []string{"forced_scenarios", "stress_histories", "closed_then_large_stream_error_scenarios", "close_deadline_then_cancelled_transmit_scenarios", "cancelled_transmits_after_setclosedeadline", "sessions_whose_xml_console_fails_at_close_time", "readers_after_serve_returned", "second_serve_returned", "terminators_with_a_stream_error_larger_than_the_output_buffer", "close_under_write_fault", "close_returns_with_wire_snapshot", "synchronous_transport_closes", "cancelled_sender_deadline_scenarios", "close_deadline_during_loop_scenarios", "close_vs_default_reply_scenarios", "close_deadline_extended_scenarios", "transmits_queued_behind_blocked_close_scenarios", "unanswered_iqs_injected", "x9_close_queued_behind_writer", "x9_default_reply_queued_behind_writer", "layered_transport_histories", "layered_transport_close_deadline", "yield:close.enter", "yield:senderr.enter", "transmits_overlapping_a_close",
 			"transmits_begun_after_a_close_returned", "late_transmits", "porcupine_checks",
-			"close_while_shutdown_waits_for_input_scenarios", "close_after_a_transient_write_fault_scenarios", "set_close_deadline_hammer_scenarios", "transmits_whose_context_ends_while_queued_behind_a_token_writer_scenarios", "stream_errors_not_followed_by_the_closing_tag", "close_deadlines_already_passed_when_set", "close_deadlines_already_passed_when_set_with_serve_blocked_in_a_read", "handler_errors_of_shape_wrap-eof", "serve_returned:peer-close", "serve_returned:stream-error", "serve_returned:handler-error", "serve_returned:deadline", "serve_returned:transport-eof"},
+			"close_while_shutdown_waits_for_input_scenarios", "close_after_a_transient_write_fault_scenarios", "set_close_deadline_hammer_scenarios", "close_deadlines_that_passed_while_a_handler_was_running", "transmits_whose_context_ends_while_queued_behind_a_token_writer_scenarios", "stream_errors_not_followed_by_the_closing_tag", "close_deadlines_already_passed_when_set", "close_deadlines_already_passed_when_set_with_serve_blocked_in_a_read", "handler_errors_of_shape_wrap-eof", "serve_returned:peer-close", "serve_returned:stream-error", "serve_returned:handler-error", "serve_returned:deadline", "serve_returned:transport-eof"},
 		ReplayRepeats: 10,
 		CaseTimeout:   150 * time.Second,
 	}
